@@ -360,6 +360,15 @@ func (h *hist) upsert(name string, total int64, status int, ctime int64, p param
 		}
 		return nil
 	})
+	if p.LpOK {
+		found := false
+		for _, x := range h.dens {
+			found = found || x == "lp/"+p.Denom
+		}
+		if !found {
+			h.dens = append(h.dens, "lp/"+p.Denom)
+		}
+	}
 	pp := p
 	h.observe(jop{Op: "upsert", Name: name, Total: total, Status: status, Ctime: ctime, Ptime: ptime, Liq: liq, P: &pp},
 		fmt.Sprintf("OUpsert %s %s %d %s %s %s %s", hx.Str(name), hx.Z(total), status, hx.Z(ctime), paramsCoq(p), hx.Z(ptime), hx.Z(liq)), ok, errs)
